@@ -37,7 +37,6 @@ PANIC_API = [
     (r'^std::iter::Iterator::step_by$', 'step_by'),
     (r'^core::num::(pow|abs|next_power_of_two|div_ceil|ilog|ilog2|ilog10|wrapping_div|wrapping_rem|overflowing_div|overflowing_rem|rem_euclid|div_euclid|wrapping_div_euclid|wrapping_rem_euclid|isqrt|next_multiple_of|strict_\w+)$', 'num_api'),
     (r'^range_map::Range::new$', 'range_new'),
-    (r'^circular::Buffer::(consume|consume_noshift|fill|grow|delete_slice|replace_slice)$', 'circular'),
     (r'^<.* as std::ops::(Add|Sub|Mul|Div|Rem|Neg|Shl|Shr|AddAssign|SubAssign|MulAssign|DivAssign|RemAssign|ShlAssign|ShrAssign)(<.*>)?>::\w+$', 'op_trait'),
     (r'^std::ops::(Add|Sub|Mul|Div|Rem|Neg|Shl|Shr|AddAssign|SubAssign|MulAssign|DivAssign|RemAssign|ShlAssign|ShrAssign)::\w+$', 'op_trait'),
     (r'^std::thread::LocalKey::with$', 'tls_with'),
@@ -433,7 +432,14 @@ class Discharger:
             if r:
                 return r
         elif k in ('assert:div_zero', 'assert:rem_zero'):
-            d = iv.operand(t['l'])
+            # the assert's operand is the dividend; the divisor is in the condition `Eq(divisor, 0)`
+            d = None
+            dt = None
+            cd = self._def_rv(fn, t['cond'])
+            if cd is not None and cd['k'] == 'bin' and cd['op'] == 'Eq':
+                d = iv.operand(cd['l'], ty=cd.get('ty'))
+                dt = fn.operand_tree(cd['l'])
+                s.trees = (dt,)
             if d and (d[0] > 0 or d[1] < 0):
                 return ('D1', 'divisor is a non-zero constant / range %s' % (d,))
             for rel, g, sc in dominating_facts(fn, s.bb):
@@ -461,8 +467,17 @@ class Discharger:
         ch = [m.replace('$crate::', '') for m in mac_chain(t)]
         if ch:
             inner = ch[0].split('::')[-1]
-            panicky = any(m.split('::')[-1] in PANIC_MACROS or m.startswith('panic::panic_20') for m in ch)
-            stdish = inner in STD_MACROS or ch[0].startswith('panic::') or ch[0].startswith('fmt::') or ch[0].startswith('format_args')
+            def third(m):
+                last = m.split('::')[-1]
+                return not (last in STD_MACROS or last in PANIC_MACROS or m.startswith('panic::') or m.startswith('fmt::') or m.startswith('format_args') or last in self.local_macros)
+            pidx = [i for i, m in enumerate(ch) if m.split('::')[-1] in PANIC_MACROS or m.startswith('panic::panic_20')]
+            panicky = bool(pidx)
+            stdish = not third(ch[0])
+            if panicky and any(third(m) for m in ch[max(pidx) + 1:]):
+                # the panic!/unreachable! token itself was written inside a third-party macro definition
+                tp = [m for m in ch[max(pidx) + 1:] if third(m)][0]
+                self.third_party.add(tp)
+                return ('M', 'panic site written inside the third-party macro %s (trusted as part of that dependency)' % tp)
             if not panicky and not stdish and inner not in self.local_macros:
                 self.third_party.add(ch[0])
                 return ('M', 'token text comes from the third-party macro %s (trusted as part of that dependency)' % ch[0])
@@ -494,6 +509,15 @@ class Discharger:
                 if strip_generics(d.get('fn', '')) in ('std::sync::Mutex::lock', 'std::sync::RwLock::read', 'std::sync::RwLock::write'):
                     return ('D8', 'lock poisoning needs a previous panic while the guard was held; excluded by induction over the same inventory')
         return None
+
+    def _def_rv(self, fn, o):
+        p = o.get('c') or o.get('m')
+        if p is None or p.get('p'):
+            return None
+        sd = fn.single_def(p['l'])
+        if sd is None or sd['kind'] != 'assign':
+            return None
+        return sd['rv']
 
     def _def_term(self, fn, o):
         p = o.get('c') or o.get('m')
